@@ -70,14 +70,14 @@ def unit_props(unit):
     return props
 
 
-def run_unit(unit, defines=None, vacuity=False, rlimit=None, seed=None, tag='main', multiple_errors=20, only_fn=None):
+def run_unit(unit, defines=None, vacuity=False, rlimit=None, seed=None, tag='main', multiple_errors=20, only_fn=None, degrade=None, _depth=0):
     """Assemble and verify one unit. Returns a result dict; never raises for proof failures."""
     os.makedirs(BUILD, exist_ok=True)
     t0 = time.time()
     res = dict(unit=unit, tag=tag, defines=defines or {}, vacuity=vacuity, status='ok', failures=[], tool_errors=[],
                fns={}, verified=0, errors=0, smt_ms=0, wall_s=0.0)
     try:
-        asm = Assembler(REPO, VERIF).assemble('units/%s.rs' % unit, defines=defines, vacuity=vacuity)
+        asm = Assembler(REPO, VERIF).assemble('units/%s.rs' % unit, defines=defines, vacuity=vacuity, degrade=degrade)
     except LostAnchor as e:
         res['status'] = 'lost-anchor'
         res['tool_errors'].append(str(e))
@@ -100,7 +100,7 @@ def run_unit(unit, defines=None, vacuity=False, rlimit=None, seed=None, tag='mai
         except Exception:
             pass
     res['cache_key'] = ckey
-    res['asm'] = {k: asm[k] for k in ('fns', 'callees', 'rewrites', 'items', 'hashes', 'defines')}
+    res['asm'] = {k: asm[k] for k in ('fns', 'callees', 'degraded', 'rewrites', 'items', 'hashes', 'defines')}
     res['path'] = path
     cmd = [VERUS, fname, '--output-json', '--time-expanded', '--multiple-errors', str(multiple_errors), '--error-format=json']
     if rlimit:
@@ -265,6 +265,26 @@ def run_unit(unit, defines=None, vacuity=False, rlimit=None, seed=None, tag='mai
         res['status'] = 'tool-error'
         if not res['tool_errors']:
             res['tool_errors'].append('verus produced no JSON summary; stderr: ' + p.stderr[-2000:])
+    # a compile-level error (construct outside the verifier's subset, unknown method on a stand-in, ...) whose span lies inside ONE extracted
+    # function: degrade that function to contract-only and verify the rest of the unit (at most 3 rounds)
+    if summary is None or (summary.get('verification-results', {}).get('encountered-vir-error')) or (not res['failures'] and res['tool_errors'] and not any(e.startswith('rlimit') for e in res['tool_errors'])):
+        culprit = None
+        for d in diags:
+            if d.get('level') != 'error':
+                continue
+            for sp in d.get('spans', []):
+                if sp.get('file_name') == fname and sp.get('line_start'):
+                    k = fn_at(sp['line_start'])
+                    if k:
+                        culprit = k
+                        break
+            if culprit:
+                break
+        if culprit and _depth < 3 and culprit not in (degrade or []):
+            r2 = run_unit(unit, defines=defines, vacuity=vacuity, rlimit=rlimit, seed=seed, tag=tag, multiple_errors=multiple_errors, only_fn=only_fn,
+                          degrade=list(degrade or []) + [culprit], _depth=_depth + 1)
+            r2.setdefault('degraded_for_compile_errors', []).append(dict(fn=culprit, errors=res['tool_errors'][:3]))
+            return r2
     if res['failures']:
         # real proof failures are reported even when another function also hit a resource limit (kept in tool_errors as a note)
         res['status'] = 'proof-failed'
@@ -337,6 +357,8 @@ if __name__ == '__main__':
         print('status', r['status'], 'verified', r['verified'], 'errors', r['errors'], 'smt_ms', r['smt_ms'], 'wall %.1fs' % r['wall_s'])
         for e in r['tool_errors']:
             print('TOOL:', e)
+        for k, dg in (r.get('asm', {}).get('degraded') or {}).items():
+            print('DEGRADED (not verified):', k, '|', dg['reason'][:160], '| props', dg['props'])
         fi = r.get('asm', {}).get('fns', {})
         for f in r['failures']:
             print('FAIL', f['kind'], obligation_id(f), sorted(failure_props(f, fi)))
